@@ -198,7 +198,7 @@ CORE = ["%d", "%i", "%u", "%x", "%X", "%o", "%c", "%s", "a%%b", "%5d", "%-5d", "
         "%5s", "%-5s", "%.2s", "%5.2s", "%c%c", "%x %o", "%08X", "%+5d", "%#5x", "%-+5d", "% 05d", "%#.3x", "%#06x", "%3c", "%-3c", "%lc", "ab%lc|",
         "%-5.3d", "%-+6.3d", "%-6.3x", "%#.3o", "%#5.3o", "%#.0o", "%#o", "%5.0s", "%-4.0s", "%3.s", "%+5d", "%5d|%-4d", "[%ls]"]
 MORE = ["%.*s", "%*s", "%%%d", "%d%%", "%+.3d", "%-#6o", "%#X", "%lli", "%hi", "%hhi", "%hx", "%hhx", "%lo", "%llo", "%zx", "%jx", "%ju", "%tx",
-        "%0*d", "%-*.*d", "%+*d", "%.1s", "%.0s", "%10.4s", "%-6.1s", "%s%s", "%d %s %c", "%#.0o", "%#.0x", "%+.0d", "%5%", "%ho",
+        "%0*d", "%-*.*d", "%+*d", "%.1s", "%.0s", "%10.4s", "%-6.1s", "%s%s", "%d %s %c", "%#.0o", "%#.0x", "%+.0d", "%ho",
         "x%5cy", "%- 5d", "%+ d", "%00d", "%--5d", "%.10d", "%20d", "%-20d|", "%020d", "%llu", "%lx", "%lX", "%#lx", "%#llo"]
 N_FMTS = ["%n", "a%n", "%%%n", "%d%n", "%ln", "%hhn", "%hn", "%lln", "%jn", "%zn", "%tn", "%5n", "%-n", "%.3n", "%*n", "%%n%n",
           "%s%n", "ab%%%%%n", "%0n", "%#n", "% n", "%+n", "%.*n", "%c%n"]
